@@ -33,8 +33,8 @@ pub struct Case {
     pub bare_alt: Vec<bool>,
 }
 
-pub fn ref_regex(al: &AL, i: usize) -> Result<Regex, String> {
-    build_ref(&al.rules[i].re.reference(&al.flags), &al.flags)
+pub fn ref_regex(al: &AL, i: usize, bare: bool) -> Result<Regex, String> {
+    build_ref(&al.rules[i].re.reference_top(&al.flags, bare), &al.flags)
 }
 
 pub fn build_ref(pattern: &str, f: &AlFlags) -> Result<Regex, String> {
@@ -369,7 +369,7 @@ impl Prop for C09 {
         let al = &case.al;
         let mut regs = vec![];
         for i in 0..al.rules.len() {
-            match ref_regex(al, i) {
+            match ref_regex(al, i, case.bare_alt.get(i).copied().unwrap_or(false)) {
                 Ok(r) => regs.push(r),
                 Err(e) => {
                     // the generator produced something the regex crate itself rejects
